@@ -29,6 +29,7 @@ mod c20;
 fn main() {
     std::panic::set_hook(Box::new(|_| {}));
     let prop = std::env::args().nth(1).unwrap_or_default();
+    if prop == "C05timed" { c05::timed_child() }
     if prop == "C18howl" { c18::howl_child(&std::env::args().nth(2).unwrap_or_default()) }
     let f: fn(&Value) -> Value = match prop.as_str() {
         "C01" | "C04" => c01::run_case,
